@@ -95,6 +95,135 @@ def _locally_cancelled(fi, call):
     return False, f"no `finally` cancels `{name}` on the exceptional exit"
 
 
+def reset_during_connect_model(ctx, repo, rule):
+    """A reset can land while the connection attempt is suspended (the reconnect button exists from CONNECTION_STARTED on;
+    the ping recovery resets on its own).  GeckoAsyncSpa._connect is interpreted on the connection model with every
+    request answered; at its k-th suspension point (endpoint creation, the pauses, the requests) the spa's disconnect()
+    runs - the reset - and _connect then goes on as the event loop would let it.  For every k: each endpoint that was
+    opened is closed, and no task started after the reset is left running (each such coroutine is stepped once: it must
+    end - by returning or by failing on the objects the reset cleared - before its first suspension)."""
+    from ..absint import BoundMethod, Obj, PyRaise, Undecided
+    from ..facts import ConnectionModel
+    from ..modlookup import _model_module
+    S = "GeckoAsyncSpa"
+    con, dis = repo.method(S, "_connect"), repo.method(S, "disconnect")
+
+    class _Alive(Exception):
+        pass
+
+    def answer(req):
+        nm = req.cls.short if isinstance(req, Obj) and req.cls is not None else ""
+        if "Version" in nm:
+            return Obj(None, {"en_build": 70, "en_major": 14, "en_minor": 1, "co_build": 69, "co_major": 11, "co_minor": 2}, name="version-reply")
+        if "Channel" in nm:
+            return Obj(None, {"channel": 10, "signal_strength": 33}, name="channel-reply")
+        if "ConfigFile" in nm:
+            return Obj(None, {"plateform_key": "inYT", "config_version": 61, "log_version": 59}, name="files-reply")
+        return None
+    n_points = None
+    k = 0
+    results = []
+    while True:
+        st = {"n": 0, "reset_at": None, "kind": None}
+        box = {}
+
+        def on_suspend(kind, st=st, box=box, k=k):
+            i = st["n"]
+            st["n"] += 1
+            if i == k and st["reset_at"] is None:
+                cm_ = box["cm"]
+                st["reset_at"], st["kind"] = len(cm_.tasks), kind
+                try:
+                    cm_.it.call(dis, cm_.spa, [])
+                except PyRaise as e:
+                    st["reset_raises"] = e.what
+        cm = ConnectionModel(repo, connect=False, answer=answer, on_suspend=on_suspend)
+        box["cm"] = cm
+        # the block transfer is a suspension point like the requests; the tables are stand-ins
+        from ..absint import Native
+
+        class _Any(dict):
+            def __missing__(self, key):
+                return Obj(None, {"value": 1, "tag": key}, name=f"acc<{key}>")
+
+            def __contains__(self, key):
+                return True
+
+            def __hash__(self):
+                return id(self)
+        st_ = cm.it.getattr(cm.spa, "struct")
+        if isinstance(st_, Obj):
+            st_.attrs["get"] = Native(lambda a, kw, on_suspend=on_suspend: (on_suspend("struct.get"), True)[1], "get")
+            st_.attrs["build_accessors"] = Native(lambda a, kw: None, "build_accessors")
+            st_.attrs["accessors"] = _Any()
+        taken = []
+        module = _model_module(taken)
+        inner = cm.it.call_hook
+        cm.it.call_hook = lambda it_, node, callee, a, kw, inner=inner, module=module: (module(a[0] if a else None) if getattr(callee, "name", "").endswith("import_module") else inner(it_, node, callee, a, kw))
+        try:
+            cm.it.steps = 0
+            cm.it.call(con, cm.spa, [])
+            outcome = None
+        except PyRaise as e:
+            outcome = e.what           # the attempt failing on what the reset cleared is the driver's matter (C09), not a leak
+        except Undecided as e:
+            raise AnalysisError(f"{con.qual} with a reset at its suspension point {k}: {e}")
+        if st["reset_at"] is None:
+            break                       # fewer than k+1 suspension points: every one has been tried
+        late = cm.tasks[st["reset_at"]:]
+        alive = []
+        cm.probing = True
+        for coro, name, key in late:
+            if not (isinstance(coro, Obj) and coro.attrs.get("kind") in ("consume", "coroutine")):
+                continue
+            if coro.attrs["kind"] == "consume":
+                h = coro.attrs["handler"]
+                fi_ = repo.method(h.cls.short, "consume") if isinstance(h, Obj) and h.cls is not None else None
+                target, args = h, coro.attrs.get("args", [])
+            else:
+                fi_ = repo.method(S, coro.attrs["method"], required=False)
+                target, args = cm.spa, coro.attrs.get("args", [])
+            if fi_ is None:
+                continue
+            prev = cm.it.call_hook
+
+            def probe(it_, node, callee, a, kw, prev=prev):
+                nm = getattr(callee, "name", "")
+                f = getattr(node, "func", None)
+                if nm == "asyncio.sleep" or (isinstance(f, ast.Attribute) and f.attr in ("sleep", "config_sleep", "wait_for_response")) or (isinstance(f, ast.Name) and f.id == "config_sleep"):
+                    raise _Alive()
+                return prev(it_, node, callee, a, kw)
+            cm.it.call_hook = probe
+            try:
+                cm.it.steps = 0
+                cm.it.call(fi_, target, list(args))
+            except _Alive:
+                alive.append(f"{key}:{name}")
+            except (PyRaise, Undecided):
+                pass                    # ends at once on what the reset cleared
+            finally:
+                cm.it.call_hook = prev
+        cm.probing = False
+        opened = getattr(cm, "endpoints", 0)
+        closed = cm.transport.attrs["closed"]
+        results.append((k, st["kind"], opened, closed, alive, outcome))
+        k += 1
+        if k > 40:
+            raise AnalysisError(f"{con.qual}: more than 40 suspension points on the connection model")
+    n_points = len(results)
+    nth = {}
+    for k_, kind, opened, closed, alive, outcome in results:
+        ok = closed >= opened and not alive
+        nth[kind] = nth.get(kind, 0) + 1
+        # keyed by the kind of suspension point and its number among those of its kind: an extra pause elsewhere does not rename it
+        ctx.ob(rule, f"{con.qual}::reset-during::{kind}#{nth[kind]}::nothing-left-behind", ok,
+               f"{con.qual}: a reset (disconnect) while the attempt is suspended at its suspension point {k_} ({kind}): {opened} endpoint(s) opened, {closed} closed; "
+               f"tasks started after the reset and still running: {alive or 'none'} (attempt ends with {outcome!r}) - a connection abandoned by a reset must leave no open endpoint and no running task",
+               con.loc, sample={"rule": rule, "suspension_point": k_, "kind": kind, "alive": alive, "endpoints_open": opened - closed} if k_ < 3 else None)
+    ctx.count(f"{rule}:suspension points of _connect at which a reset was injected", n_points)
+    ctx.floor(rule, "suspension points of _connect at which a reset was injected", n_points, 6)
+
+
 def spa_teardown_model(ctx, repo, rule):
     """GeckoAsyncSpa.disconnect by interpretation (facts.ConnectionModel): the spa is built by its constructor, _connect
     opens the endpoint on a model event loop and starts its tasks, then disconnect() runs.  Afterwards the model
@@ -295,6 +424,7 @@ def check(ctx):
     # registry behaviour by interpretation (vlib/taskmodel.py): domain isolation, nothing forgotten, gather
     from ..taskmodel import check_registry
     check_registry(ctx, repo, "R3", only=("isolation", "forgotten", "gather", "same-name"))
+    reset_during_connect_model(ctx, repo, "R3")
 
     # ---- R4 cancellation ----------------------------------------------------
     n_handlers = 0
